@@ -253,7 +253,7 @@ PROPERTY_UNITS['C18'] = ['sigtab', 'coredeps']
 PROPERTY_UNITS['C07'] = ['l0bits']
 PROPERTY_UNITS['C08'] = ['dfvc', 'l1int', 'l0bits']
 PROPERTY_UNITS['C11'] = ['dfvc']
-PROPERTY_UNITS['C15'] = ['l2', 'l1int', 'l0bits', 'tinyvec']
+PROPERTY_UNITS['C15'] = ['l2', 'msgl3', 'l1int', 'l0bits', 'tinyvec']
 PROPERTY_UNITS['C14'] = ['msgl3', 'frame']
 PROPERTY_UNITS['C12'] = ['msgl3', 'l0bits']
 PROPERTY_UNITS['C09'] = ['msgl3', 'l2', 'l1int', 'l1enc', 'bs_msgs', 'l0bits']
